@@ -37,6 +37,33 @@ Theorem C30_saved_dc_is_primary :
 Proof. exact (@saved_dc_is_primary). Qed.
 Print Assumptions C30_saved_dc_is_primary.
 
+(* "... the auth key and salt of a connection to that same DC": the model separates what the
+   server reported (n_dc, all the code sees) from the DC of the connection the notification
+   came from (ghost n_conn).  When the server reports its own DC (honest n) the saved DC IS the
+   connection's DC; the refutation below is the dishonest case ThisDC = 0.  Each notification
+   is handled atomically in the model: onSession reads the primary DC and stores the session
+   in two critical sections and saveSession is load-modify-save; every Save is internally
+   consistent, but "primary at that time" is the value onSession read (a concurrent Migrate
+   is not interleaved inside a notification -- assumption, the harness drives handlers
+   sequentially). *)
+Theorem C30_saved_is_connection_dc :
+  forall (K : Type) (kzero kvalid : K -> bool) (k0 : K)
+         (h : list (@event K)) (st : @state K) (i : nat) (sv : @sess K),
+    nth_error (snd (run kzero kvalid k0 st h)) i = Some (Some sv) ->
+    exists n, nth_error h i = Some (ENotify n) /\ n_h n = HRegular /\
+              s_key sv = save_key kzero n /\ s_salt sv = n_salt n /\
+              (honest n -> s_dc sv = n_conn n).
+Proof. exact (@saved_is_connection_dc). Qed.
+Print Assumptions C30_saved_is_connection_dc.
+
+(* "permanent key under PFS", PFS meaning the connection runs with PFS (ghost n_pfs), under the
+   environment fact that such a connection notifies with a non-zero PermKey *)
+Theorem C30_perm_key_when_pfs_enabled :
+  forall (K : Type) (kzero : K -> bool) (n : @notif K),
+    n_pfs n = true -> pfs_has_perm kzero n -> save_key kzero n = n_perm n.
+Proof. exact (@save_key_under_pfs). Qed.
+Print Assumptions C30_perm_key_when_pfs_enabled.
+
 (* the storage always holds the last such record *)
 Theorem C30_storage_is_last_save :
   forall (K : Type) (kzero kvalid : K -> bool) (k0 : K) (h : list (@event K)) (st : @state K),
@@ -96,10 +123,11 @@ Print Assumptions C30_restore_after_save.
 (* The DC = 0 cases are real in the model: a regular notification reporting ThisDC = 0
    (a server whose help.getConfig has this_dc = 0) is persisted whatever connection it
    came from and sets the primary DC to 0, after which a notification from DC 4 is
-   persisted although the primary DC was 2 and nothing migrated.  Known finding
+   persisted although the primary DC was 2 and nothing migrated (both notifications come from
+   the connection to DC 4: n_conn = 4; the first is not honest).  Known finding
    "server-reports-this-dc-0" (the harness shows it on the real client). *)
 Definition C30_zero_witness : list (@event Z) :=
-  [ENotify (mkNotif HRegular 0 1 0 11); ENotify (mkNotif HRegular 4 2 0 22)].
+  [ENotify (mkNotif HRegular 0 4 1 0 11 false); ENotify (mkNotif HRegular 4 4 2 0 22 false)].
 Theorem C30_refuted_when_this_dc_zero :
   snd (run (fun k => k =? 0) (fun _ => true) 0 (init 0 2) C30_zero_witness)
   = [Some (mkSess 0 1 11); Some (mkSess 4 2 22)].
@@ -108,12 +136,12 @@ Print Assumptions C30_refuted_when_this_dc_zero.
 (* with ThisDC reported correctly the second notification is ignored *)
 Example C30_non_primary_ignored :
   snd (run (fun k => k =? 0) (fun _ => true) 0 (init 0 2)
-           [ENotify (mkNotif HRegular 2 1 0 11); ENotify (mkNotif HRegular 4 2 0 22); ENotify (mkNotif HCdn 2 3 0 33)])
+           [ENotify (mkNotif HRegular 2 2 1 0 11 false); ENotify (mkNotif HRegular 4 4 2 0 22 false); ENotify (mkNotif HCdn 2 2 3 0 33 false)])
   = [Some (mkSess 2 1 11); None; None].
 Proof. vm_compute. reflexivity. Qed.
 
 (* non-vacuity of the hypotheses of C30_saved_dc_is_primary *)
 Example C30_nz_nonvacuous :
   s_dc (cur (init (0:Z) 2)) <> 0 /\
-  Forall (@nz_event Z) [ENotify (mkNotif HRegular 2 1 0 11); EMigrate 4; ERestore; ENotify (mkNotif HCdn 0 3 0 33)].
+  Forall (@nz_event Z) [ENotify (mkNotif HRegular 2 2 1 0 11 false); EMigrate 4; ERestore; ENotify (mkNotif HCdn 0 0 3 0 33 false)].
 Proof. split; [cbn; discriminate|repeat constructor; cbn; intros; discriminate]. Qed.
